@@ -1,5 +1,5 @@
 (* Case evaluators for Pauli strings / SumOp (C08, C09, C10): run inside coqc by vm_compute. *)
-From Coq Require Import Floats List NArith Bool.
+From Coq Require Import Floats List NArith ZArith Bool Uint63.
 From QI Require Import Base.Bits Base.ListAux Base.Scalar Model.Outcome Model.Validate Model.Gates Model.StateOps Model.Pauli
   Spec.Embed Proofs.PauliF Proofs.C08 Run.FloatInst Run.EvalGates.
 Import ListNotations.
@@ -101,3 +101,51 @@ Definition check_exp_case (par negidt : bool) (P : fps) (alpha ea ch sh : cf) (n
 Definition check_exp_group (v eab esum e0 : list cf) : N :=
   let tol := (16 * amp_tol (v ++ eab ++ esum))%float in
   b2n (vclose tol eab esum) + 2 * b2n (vclose (amp_tol v) e0 v).
+
+(* ---------------- Trotter steps (C10) ---------------- *)
+From QI Require Import Model.Trotter.
+
+Definition mk_eterms (H : list fps) (orc : list (cf * cf * cf)) : list (eterm (T:=float)) := combine H orc.
+
+(* exact evolution exp(-i t H) psi by the Taylor series  sum_j (-i t H)^j / j! psi, H applied through the closed-form
+   Spec of C08 (libm-free, independent of the term exponentials) *)
+Definition H_apply (H : list fps) (n : N) (v : list cf) : list cf := map (sum_action fops H v) (Nrange (2^n)).
+Fixpoint evo_series (fuel : nat) (j : float) (H : list fps) (n : N) (t : float) (term acc : list cf) : list cf :=
+  match fuel with
+  | O => acc
+  | S f =>
+      (* term' = (-i t / j) * H term *)
+      let ht := H_apply H n term in
+      let s := (t / j)%float in
+      let term' := map (fun a => ((snd a * s)%float, (- (fst a * s))%float)) ht in
+      evo_series f (j + 1)%float H n t term' (vadd fops acc term')
+  end.
+Definition exact_evolution (nterms : nat) (H : list fps) (n : N) (t : float) (v : list cf) : list cf :=
+  evo_series nterms 1%float H n t v v.
+
+Definition fnorm2_l (a : list cf) : float := fold_left (fun acc x => (acc + cnorm2 fops x)%float) a 0%float.
+Definition vdist2 (a b : list cf) : float :=
+  fold_left (fun acc p => (acc + cnorm2 fops (csub fops (fst p) (snd p)))%float) (combine a b) 0%float.
+
+(* bits: 1 class = model; 2 model close; 4 model equal; 8 ||impl - exp(-iHt) psi||_2 <= bound + 1e-9(1+||psi||);
+   16 validity agrees with Ok/Err; 32 norm preserved *)
+Definition check_trotter_case (par second : bool) (H : list fps) (orc : list (cf * cf * cf)) (k : nat) (n : N) (v : list cf)
+    (t bound : float) (nterms : nat) (r : pimpl) : N :=
+  let m := trotter_evolve fops par (if second then Second else First) (mk_eterms H orc) k (mkState n v) in
+  let valid := sum_okb n H && negb (match H with [] => true | _ => false end) in
+  match r with
+  | PIState w =>
+      let tol := (4 * amp_tol (v ++ w) * (1 + PrimFloat.of_uint63 (Uint63.of_Z (Z.of_nat k))))%float in
+      let ref := if valid then exact_evolution nterms H n t v else [] in
+      let nv := PrimFloat.sqrt (fnorm2_l v) in
+      b2n (class_bits m r)
+      + 2 * b2n (match m with Ok st => vclose tol (vec st) w | _ => false end)
+      + 4 * b2n (match m with Ok st => vexact (vec st) w | _ => false end)
+      + 8 * b2n (PrimFloat.leb (PrimFloat.sqrt (vdist2 w ref)) (bound + 0x1.12e0be826d695p-30 * (1 + nv)))%float
+      + 16 * b2n valid
+      + 32 * b2n (PrimFloat.leb (abs (fnorm2_l w - fnorm2_l v)) (0x1.b7cdfd9d7bdbbp-34 * (1 + fnorm2_l v)))%float
+  | PIErr => b2n (class_bits m r) + 2 + 4 + 8 + 16 * b2n (negb valid) + 32
+  | _ => b2n (class_bits m r) + 2 + 4 + 8 + 32
+  end.
+(* reversibility on the implementation's outputs: S(-dt) S(dt) psi ~ psi *)
+Definition check_trotter_rev (v w : list cf) : N := b2n (vclose (16 * amp_tol v)%float v w).
